@@ -20,6 +20,7 @@ ID_CHOICES = [('ident', 'secret'), ('ü', 'pä'), ('a', '')]
 def build_cases(ctx, pid):
     cases = []
     na, nt, nl = ctx.n(110, 1500), ctx.n(80, 1000), ctx.n(160, 2500)
+    nb = ctx.n(120, 2000) if pid in ('C11', 'C12') else 0
     for k in range(na):
         rng = ctx.rng('aio/%d' % k)
         ident, secret = rng.choice(ID_CHOICES)
@@ -31,6 +32,10 @@ def build_cases(ctx, pid):
     for k in range(nl):
         rng = ctx.rng('legacy/%d' % k)
         cases.append(dict(kind='legacy', ident='ident', secret='secret', case=L.gen_case(rng)))
+    for k in range(nb):
+        rng = ctx.rng('blk/%d' % k)
+        ident, secret = rng.choice(ID_CHOICES)
+        cases.append(dict(kind='blocking', ident=ident, secret=secret, events=C.gen_blk(rng)))
     return cases
 
 
@@ -53,6 +58,14 @@ def evaluate(pid, inp):
         nt = sum(1 for r in d.trace if r['ev'][0] == 'data' and r['delivered'])
         sig = ('t', tuple(impl)) if nt else None
         return impl, expr, fails, sig
+    if kind == 'blocking':
+        import blksess
+        rows, d = blksess.drive(inp['events'], ident, secret)
+        fails = C.blk_oracles(d, ident, secret)
+        impl = [r[IDX[pid]] for r in rows]
+        expr = C.expr_blk(inp['events'], ident, secret)
+        nt = sum(1 for r in d.trace if r['ev'][0] == 'data' and r['delivered'])
+        return impl, expr, fails, (('b', tuple(impl)) if nt else None)
     env, outcome = L.drive(inp['case'], ident, secret)
     fails = C.legacy_oracles(inp['case'], env, outcome, ident, secret)
     impl = C.legacy_proj(WHICH[pid], env.trace)
@@ -68,17 +81,20 @@ def run(pid, ctx, res, rule):
         impl, expr, fails, sig = evaluate(pid, inp)
         res.count(inp['kind'])
         orc = fails.get(pid)
+        fsig = None
+        if isinstance(orc, tuple):
+            fsig, orc = orc
         if inp['kind'] == 'legacy':
             res.count('legacy_recv_%d' % min(len(inp['case']['recv']) // 5 * 5, 20))
         else:
             res.count('%s_events_%d' % (inp['kind'], min(len(inp['events']) // 20 * 20, 80)))
         cases.append(dict(input=inp, expr=expr, impl=impl, oracle=orc, sig=sig,
-                          fsig=('%s: %s' % (pid, orc.split(':', 1)[0])) if orc else None, kind=inp['kind']))
+                          fsig=fsig or (('%s: %s' % (pid, orc.split(':', 1)[0])) if orc else None), kind=inp['kind']))
 
     def compare(c, m):
         if c['kind'] == 'legacy':
             return None if m == c['impl'] else 'blocking Client differs from its model: impl %r model %r' % (c['impl'][:12], m[:12])
-        mine = m[IDX[pid]::3]
+        mine = m[IDX[pid]::(2 if c['kind'] == 'blocking' else 3)]
         if mine != c['impl']:
             k = next((i for i, (a, b) in enumerate(zip(mine, c['impl'])) if a != b), min(len(mine), len(c['impl'])))
             return '%s session differs from its model at event %d (%r)' % (c['kind'], k, c['input']['events'][k][:2] if k < len(c['input']['events']) else None)
@@ -91,4 +107,5 @@ def run(pid, ctx, res, rule):
 
 def replay(pid, ctx, case):
     impl, expr, fails, sig = evaluate(pid, case)
-    return fails.get(pid)
+    f = fails.get(pid)
+    return f[1] if isinstance(f, tuple) else f
